@@ -286,7 +286,23 @@ func genChainOp(t *rapid.T, healthyPossible bool) chainOp {
 				return tq.Apply(qframe.Instruction{Fn: func(a, b bool) int { return 0 }, DstCol: "n1", SrcCol1: "tb", SrcCol2: "tb"})
 			}}
 		default:
-			j := rapid.IntRange(0, 6).Draw(t, "enummisuse")
+			j := rapid.IntRange(0, 7).Draw(t, "enummisuse")
+			if j == 7 {
+				// an enum column compared with the column the ToUpper built-in made of it: two enums over different value
+				// lists ("mismatched column types"), although they still share their cell storage
+				enumColComp := rapid.SampledFrom([]string{"=", "<", "!="}).Draw(t, "enumcolcomp")
+				return chainOp{desc: "enum column compared (" + enumColComp + ") with its ToUpper copy", mustErr: true, run: func(qf qframe.QFrame) qframe.QFrame {
+					if qf.Err != nil {
+						return qf.Filter(qframe.Filter{Column: "e1", Comparator: "=", Arg: types.ColumnName("e2")})
+					}
+					fresh := qframe.New(map[string]interface{}{"en": []string{"b", "a", "c", "a"}}, newqf.Enums(map[string][]string{"en": {"b", "a", "c"}}))
+					up := fresh.Apply(qframe.Instruction{Fn: "ToUpper", DstCol: "up", SrcCol1: "en"})
+					if up.Err != nil {
+						panic(up.Err)
+					}
+					return up.Filter(qframe.Filter{Column: "en", Comparator: enumColComp, Arg: types.ColumnName("up")})
+				}}
+			}
 			if j >= 5 {
 				// a malformed like/ilike pattern is an invalid argument whatever the column holds: here an enum column
 				// without any value (only nulls, or no row at all)
